@@ -53,12 +53,18 @@ Definition calc_amount_quote_delta (liq sa sb : Z) (round_up : bool) : option Z 
   let? m := dmul diff liq in
   if round_up then dceil m else Some m.
 
-Definition next_sqrt_from_base_in_up (sp liq amt : Z) : option Z :=
-  if amt =? 0 then Some sp else
+(* as first computed: rounded up twice, which can overshoot the current price by one ulp when the
+   amount is too small to move it (pre-fix behaviour, kept for the regression witness) *)
+Definition next_sqrt_from_base_in_up_raw (sp liq amt : Z) : option Z :=
   let? product := dmulT amt sp in
   let? denom := dadd product liq in
   let? num := dmulU liq sp in
   dquoU num denom.
+(* ... then capped at the current price: adding base never raises the price *)
+Definition next_sqrt_from_base_in_up (sp liq amt : Z) : option Z :=
+  if amt =? 0 then Some sp else
+  let? n := next_sqrt_from_base_in_up_raw sp liq amt in
+  Some (if sp <? n then sp else n).
 
 Definition next_sqrt_from_base_out_up (sp liq amt : Z) : option Z :=
   if amt =? 0 then Some sp else
